@@ -302,6 +302,14 @@ pub fn random_meta(rng: &mut Rng, depth: u32) -> JSONMap<String, Value> {
         };
         m.insert(key, random_json(rng, depth + 1));
     }
+    // real archives carry kilobytes of metadata (vector_layers, tilestats): one in six is large, with sizes around the
+    // powers of two a reader might pick as a buffer size
+    if depth == 0 && rng.chance(1, 6) {
+        let len = *rng.pick(&[2040usize, 2049, 4096, 8193, 20_000, 66_000]);
+        let unit = "{\"id\":\"layer\",\"fields\":{\"name\":\"String\"}},";
+        let text: String = unit.chars().cycle().take(len).collect();
+        m.insert("vector_layers".to_string(), json!(text));
+    }
     m
 }
 
